@@ -206,7 +206,14 @@ func FeasibleLeaves(fn *ssa.Function, v ssa.Value, at ssa.Instruction) []Leaf {
 	var out []Leaf
 	for _, lf := range PhiLeaves(v, at) {
 		if lf.Pred != nil && lf.To != nil {
-			w := PathQuery{Fn: fn, StartEdge: &[2]*ssa.BasicBlock{lf.Pred, lf.To}, Target: func(in ssa.Instruction) bool { return in == at }}.Find()
+			to := lf.To
+			direct := false // the leaf is an edge of v itself (not of a phi nested in it, whose value v may carry round a loop)
+			if top, ok := Unspill(v).(*ssa.Phi); ok && top.Block() == to {
+				direct = true
+			}
+			// coming back into the phi's block gives the phi its next value (a later loop iteration): not this leaf
+			w := PathQuery{Fn: fn, StartEdge: &[2]*ssa.BasicBlock{lf.Pred, lf.To}, Target: func(in ssa.Instruction) bool { return in == at },
+				Edge: func(b *ssa.BasicBlock, succ int) bool { return !direct || b.Succs[succ] != to }}.Find()
 			if w == nil {
 				continue
 			}
@@ -747,4 +754,17 @@ func fieldOfAlloc(fn *ssa.Function, a *ssa.Alloc, field int, at ssa.Instruction,
 		return fieldOfStructValue(fn, whole, field, at, depth+1)
 	}
 	return nil
+}
+
+// SoleFeasibleLeaf: when exactly one non-phi value can flow into v at the use (the other phi edges cannot reach it,
+// as with the results of an inlined helper tested by its `ok` flag), that value; otherwise v itself.
+func SoleFeasibleLeaf(fn *ssa.Function, v ssa.Value, at ssa.Instruction) ssa.Value {
+	if _, isPhi := Unspill(v).(*ssa.Phi); !isPhi {
+		return v
+	}
+	lfs := FeasibleLeaves(fn, v, at)
+	if len(lfs) == 1 {
+		return lfs[0].V
+	}
+	return v
 }
